@@ -7,6 +7,7 @@ import (
 	"encoding/json"
 	"fmt"
 	"reflect"
+	"time"
 
 	p9p "github.com/frobnitzem/go-p9p"
 	"pgregory.net/rapid"
@@ -26,7 +27,7 @@ type MsgCase struct {
 
 func GenMsgCase(kind uint8) func(t *rapid.T) MsgCase {
 	return func(t *rapid.T) MsgCase {
-		sz := gen.Sizes{Big: harn.Thorough()}
+		sz := gen.Sizes{Big: harn.Thorough(), FillStat: true}
 		return MsgCase{Msg: gen.MsgOfKind(kind, sz).Draw(t, "msg"), Loc: rapid.IntRange(0, 2).Draw(t, "loc")}
 	}
 }
@@ -164,8 +165,17 @@ type DirCase struct {
 }
 
 func GenDirCase(t *rapid.T) DirCase {
-	sz := gen.Sizes{Big: harn.Thorough()}
-	return DirCase{Stat: gen.Stat(sz).Draw(t, "stat"), Qid: gen.Qid().Draw(t, "qid"), Loc: rapid.IntRange(0, 2).Draw(t, "loc")}
+	sz := gen.Sizes{Big: harn.Thorough(), FillStat: true}
+	c := DirCase{Stat: gen.Stat(sz).Draw(t, "stat"), Qid: gen.Qid().Draw(t, "qid"), Loc: rapid.IntRange(0, 2).Draw(t, "loc")}
+	if rapid.IntRange(0, 39).Draw(t, "maxsizefield") == 0 {
+		// a stand-alone record (directory read) whose own size field is 65534 or 65535: the
+		// largest values the field can carry (inside Rstat/Twstat the outer count stops at 65533)
+		total := 65535 - 39 - 8 - rapid.IntRange(0, 1).Draw(t, "under")
+		a := rapid.IntRange(0, total).Draw(t, "cut")
+		c.Stat.Name, c.Stat.UID = harn.B(bytes.Repeat([]byte{'n'}, a)), harn.B(bytes.Repeat([]byte{'u'}, total-a))
+		c.Stat.GID, c.Stat.MUID = nil, nil
+	}
+	return c
 }
 
 func RunDir(c DirCase) harn.Result {
@@ -193,6 +203,19 @@ func RunDir(c DirCase) harn.Result {
 	if back := gen.FromDir(out); !reflect.DeepEqual(back, want) {
 		return harn.Fail("Unmarshal(Dir) is not the original: %s", diff(back, want))
 	}
+	// decoding into a variable that already holds another record (a loop that reuses its
+	// Dir) yields the record on the wire, nothing of the previous content
+	dirty := func() p9p.Dir {
+		return p9p.Dir{Type: 0xAAAA, Dev: 0xBBBBBBBB, Qid: p9p.Qid{Type: 0xCC, Version: 0xDDDDDDDD, Path: 0xEEEEEEEEEEEEEEEE}, Mode: 0x99999999,
+			AccessTime: time.Unix(77, 0), ModTime: time.Unix(88, 0), Length: 0x1111111111111111, Name: "old-name", UID: "old-uid", GID: "old-gid", MUID: "old-muid"}
+	}
+	out = dirty()
+	if err := codec.Unmarshal(ref, &out); err != nil {
+		return harn.Fail("Unmarshal(Dir) into a used variable failed: %v", err)
+	}
+	if back := gen.FromDir(out); !reflect.DeepEqual(back, want) {
+		return harn.Fail("Unmarshal(Dir) into a variable that held another record is not the record on the wire: %s", diff(back, want))
+	}
 	// EncodeDir / DecodeDir, with a second record behind the first
 	var buf bytes.Buffer
 	if err := p9p.EncodeDir(codec, &buf, &d); err != nil {
@@ -203,8 +226,11 @@ func RunDir(c DirCase) harn.Result {
 	}
 	buf.Write(ref)
 	rd := bytes.NewReader(buf.Bytes())
+	o2 := dirty()
 	for i := 0; i < 2; i++ {
-		var o2 p9p.Dir
+		if i == 1 {
+			o2 = dirty()
+		}
 		if err := p9p.DecodeDir(codec, rd, &o2); err != nil {
 			return harn.Fail("DecodeDir(record %d) failed: %v", i, err)
 		}
